@@ -437,15 +437,12 @@ theorem runSegs_started (free : String → Option V) (e : Eng V) (he : e.started
     | error err => simp [hf]
     | ok r => simp [hf, ih ⟨true, r⟩ rfl]
 
-theorem runSegs_fresh (free : String → Option V) (segs : List (Regs V × List (Cmd V))) :
-    runSegs free {} segs = runCmds free Regs.empty (segs.flatMap (·.2)) := by
-  cases segs with
-  | nil => simp [runSegs, runCmds]
-  | cons s rest =>
-    obtain ⟨own, cmds⟩ := s
-    simp only [runSegs, runSeg, List.flatMap_cons, runCmds_append]
-    cases hf : (runCmds free Regs.empty cmds).fin with
-    | error err => simp [hf]
-    | ok r => simp [hf, runSegs_started free ⟨true, r⟩ rfl]
+theorem runSegs_fresh (free : String → Option V) (own : Regs V) (cmds : List (Cmd V))
+    (rest : List (Regs V × List (Cmd V))) :
+    runSegs free {} ((own, cmds) :: rest) = runCmds free own (((own, cmds) :: rest).flatMap (·.2)) := by
+  simp only [runSegs, runSeg, List.flatMap_cons, runCmds_append]
+  cases hf : (runCmds free own cmds).fin with
+  | error err => simp [hf]
+  | ok r => simp [hf, runSegs_started free ⟨true, r⟩ rfl]
 
 end SFV.Param
